@@ -320,6 +320,13 @@ class Check:
   def selftest(self, name, rejected):
     """Binding self-test: a deliberately corrupted case must be rejected."""
     self.selftests.append({"name": name, "rejected": bool(rejected)})
+    if not rejected and self.violations:
+      # The self-tests corrupt an EXPECTATION and rely on the code under test behaving as specified; when the
+      # run has already established that it does not, an unrejected corruption says nothing about the binding
+      # (the code may simply behave the way the corruption describes).  The violations stand; the self-test is
+      # recorded as inconclusive.
+      self.selftests[-1]["inconclusive_because_violations_were_found"] = True
+      return
     if not rejected:
       raise MachineryError(f"binding self-test '{name}' was NOT rejected: the check is "
                            "not bound to what it claims to observe")
